@@ -5,9 +5,9 @@ from .model import ASSIGNABLE
 
 def world_cfg(rng, pools=None, overcommit=None, multi=None, small_ram=False, tps=None):
     return {
-        "pools": pools if pools is not None else rng.choice([1, 1, 2, 3, 4]),
-        "cpus": rng.choice([1, 2, 4, 8, 10, 64]),
-        "ram": rng.choice([0.25, 0.5, 1, 4, 16] if small_ram else [0.5, 1, 4, 16, 30, 64, 256]),
+        "pools": pools if pools is not None else (rng.choice([1, 1, 2, 3, 4]) if rng.random() < 0.9 else rng.choice([8, 16, 33])),
+        "cpus": rng.choice([1, 2, 4, 8, 10, 64]) if rng.random() < 0.93 else rng.choice([1000, 4096]),
+        "ram": rng.choice([0.25, 0.5, 1, 4, 16] if small_ram else [0.5, 1, 4, 16, 30, 64, 256, 256, 2048, 2.5, 7.25]),
         "tps": tps if tps is not None else gen.pick_tps(rng, small=rng.random() < 0.7),
         "multi": rng.random() < 0.75 if multi is None else multi,
         "overcommit": rng.random() < 0.4 if overcommit is None else overcommit,
